@@ -256,11 +256,11 @@ Definition result_keys : list string :=
    "problem_type"; "mesh_size"; "non_box_cons"; "yval_vec"; "ysd_vec"; "fval"; "fsd"; "total_time";
    "overhead"; "random_seed"; "algorithm"; "version"]%string.
 
-(* the keys set_attributes assigns, in its order (status is not among them) *)
+(* the keys set_attributes assigns, in its order: all 21 names of _keys (status since commit 39edf28) *)
 Definition set_attributes_keys : list string :=
   ["fun"; "non_box_cons"; "target_type"; "problem_type"; "iterations"; "func_count"; "mesh_size";
    "overhead"; "algorithm"; "yval_vec"; "ysd_vec"; "x0"; "x"; "fval"; "fsd"; "total_time";
-   "random_seed"; "version"; "success"; "message"]%string.
+   "random_seed"; "version"; "success"; "status"; "message"]%string.
 
 Definition mem_str (k : string) (l : list string) : bool := existsb (String.eqb k) l.
 
